@@ -336,7 +336,7 @@ def run(tier, seed):
     for which in ("add_elements", "_add_elements_nonunfied"):
         for pi in range(8):
             tasks.append(("bnd", (which, pi)))
-    tasks.sort(key=lambda t: -({"pairs": 1, "ladder": 3, "real": 2, "bnd": 2}[t[0]]) * (T.get(t[1][0] if t[0] == "pairs" else (t[1] if t[0] == "ladder" else "E53")).ref.Q ** 2))
+    tasks.sort(key=lambda t: -({"pairs": 1, "ladder": 3, "real": 2, "bnd": 2}[t[0]]) * (T.hint(t[1][0] if t[0] == "pairs" else (t[1] if t[0] == "ladder" else "E53")).ref.Q ** 2))
     core.pmerge(_dispatch, tasks, acc)
     return acc
 
